@@ -5,6 +5,7 @@ import (
 	"runtime/debug"
 	"strings"
 	"time"
+	"verif/mc/docgen"
 
 	"github.com/tidwall/geojson"
 	"github.com/tidwall/geojson/geometry"
@@ -392,6 +393,20 @@ func evalCall(c *rt.Case) (bool, string, string, error) {
 					if lr.name == nm {
 						doc = lr.gen()
 					}
+				}
+			}
+			if nm, ok := strings.CutPrefix(doc, "large#"); ok {
+				var i int
+				fmt.Sscan(nm, &i)
+				if ld := docgen.LargeDocs(); i >= 0 && i < len(ld) {
+					doc = ld[i]
+				}
+			}
+			if nm, ok := strings.CutPrefix(doc, "broken-members#"); ok {
+				var i int
+				fmt.Sscan(nm, &i)
+				if bm := docgen.BrokenMemberDocs(); i >= 0 && i < len(bm) {
+					doc = bm[i]
 				}
 			}
 			debug.SetMaxStack(256 << 20)
